@@ -126,7 +126,8 @@ static int do_replay(void) {
     mc_replay_hit = 0; for (int i = 0; i < CP_N; i++) if (!strcmp(r.sub, corpus_name(i))) CURPH = i;
     long at = -1; for (long i = r.len - 1; i >= 0; i--) if (r.in[i] == '@') { at = i; break; }
     sink(r.in, (size_t)r.len, NULL);
-    if (!mc_replay_hit && at < 0) { unsigned char t[MC_CASEMAX + 8]; memcpy(t, r.in, (size_t)r.len); memcpy(t + r.len, "@ok.com", 7); sink(t, (size_t)r.len + 7, NULL); }   /* local-part level witnesses */
+    (void)at;
+    if (!mc_replay_hit) {      /* local-part level witnesses (they may hold a quoted '@' themselves) */ unsigned char t[MC_CASEMAX + 8]; memcpy(t, r.in, (size_t)r.len); memcpy(t + r.len, "@ok.com", 7); sink(t, (size_t)r.len + 7, NULL); }   /* local-part level witnesses */
     printf("replay %s: %s\n", mc_replay, mc_replay_hit ? "VIOLATION reproduced" : "no violation");
     return mc_replay_hit ? 1 : 0;
 }
@@ -138,7 +139,7 @@ int main(int argc, char **argv) {
     C_ADDR = mc_counter("addresses"); C_DELTA20 = mc_counter("rfc20_delta_cases"); C_DELTAUS = mc_counter("underscore_delta_cases"); C_DELTA5322 = mc_counter("rfc5322_delta_cases"); C_SAME = mc_counter("must_be_identical_comparisons");
     if (corpus_load()) return 2;
     if (mc_replay) return do_replay();
-    static const int PH[] = { CP_LOCAL, CP_EMAIL, CP_DOMAIN, CP_CROSS, CP_BYTES, CP_TLD, CP_LITERAL, CP_LABELLEN, CP_ALTDOT, CP_LONGIDN, CP_MAXLIT, CP_LPXDOM, CP_WHOLEDOM, CP_DEPTH, CP_EMBED, CP_SUBST, CP_SHORTLAB, CP_SCALARS };
+    static const int PH[] = { CP_LOCAL, CP_EMAIL, CP_DOMAIN, CP_CROSS, CP_BYTES, CP_TLD, CP_LITERAL, CP_LABELLEN, CP_ALTDOT, CP_LONGIDN, CP_MAXLIT, CP_LPXDOM, CP_WHOLEDOM, CP_DEPTH, CP_EMBED, CP_SUBST, CP_SHORTLAB, CP_POSN, CP_WRAP, CP_SCALARS };
     for (unsigned i = 0; i < sizeof PH / sizeof PH[0]; i++) { CURPH = PH[i]; char nm[64]; snprintf(nm, sizeof nm, "%.40s (N=%d)", corpus_name(CURPH), corpus_N(CURPH)); mc_parallel(nm, corpus_shards(CURPH), phase_shard, NULL); }
     return mc_finish();
 }
